@@ -21,7 +21,8 @@ BOUND = {
     "quick": "gelu(exact,tanh)/silu/silu_glu: mult = 2^(j/8), j=-32..32 (65 points); softmax width "
     "{16,17,64,256,1000,4096} x mult 2^(j/4) in [1/8,4]; attention seq {16,64,256,1024} x head "
     "{16,64,128} x mult 2^j in [1/4,16] x causal x dropout {0,0.3}; cross-entropy vocab "
-    "{2,3,4,8,16,100,1000,32000} x mult {1/8..4} + uniform logits; norms width {16,17,32,64,256,1024}",
+    "{2,3,4,8,16,100,1000,32000} x mult {1/8..4} + uniform logits; norms width {16,17,32,64,256,1024} x 6 factorizations "
+    "of the normalised shape (incl. trailing dimension 1, 2, 4); cross-attention (6 unequal length pairs, output clause)",
     "thorough": "grid steps halved (mult = 2^(j/16), 2^(j/8), 2^(j/2)) and intermediate sizes added",
 }
 EXHAUSTIVE = {"quick": True, "thorough": True}
@@ -58,6 +59,13 @@ def cases(tier: str, seed: int) -> List[Dict[str, Any]]:
                     for dp in (0.0, 0.3) + ((0.1,) if th else ()):
                         out.append({"op": "attention", "seq": s, "d": d, "mult": m, "causal": causal,
                                     "dropout_p": dp, "seed": seed})
+    # cross-attention: query and key/value sequence lengths both in range but different (output clause only:
+    # the value gradient sums over the queries and is not claimed for unequal lengths)
+    for sq, skv in [(16, 1024), (1024, 16), (64, 512), (128, 32), (16, 17), (256, 64)] + ([(512, 1024), (32, 16)] if th else []):
+        for d in (16, 128) if not th else heads:
+            for m in _pow2grid(1 / 4, 16, 1):
+                for dp in (0.0, 0.3):
+                    out.append({"op": "attention", "seq": skv, "seq_q": sq, "d": d, "mult": m, "causal": False, "dropout_p": dp, "seed": seed})
     vocabs = [2, 3, 4, 8, 16, 100, 1000, 32000] + ([5, 50, 5000] if th else [])
     for v in vocabs:
         for m in _pow2grid(1 / 8, 4, 2 if th else 1):
@@ -68,6 +76,9 @@ def cases(tier: str, seed: int) -> List[Dict[str, Any]]:
         for op in ("layer_norm", "rms_norm"):
             for nd in (1, 2):
                 out.append({"op": op, "width": w, "nd": nd, "seed": seed})
+            # normalised shapes with a short trailing dimension (same normalised width)
+            for split in ("x4", "x2", "2x2x", "x1") if w % 4 == 0 else ("x1",):
+                out.append({"op": op, "width": w, "nd": split, "seed": seed})
     return out
 
 
@@ -135,12 +146,16 @@ def run_case(case: Dict[str, Any]) -> Dict[str, Any]:
         elif op == "attention":
             s, d = case["seq"], case["d"]
             b = max(N // (s * d), 2)
-            q, k, v = (torch.randn(b, 1, s, d, generator=g).requires_grad_(True) for _ in range(3))
+            sq = case.get("seq_q", s)
+            b = max(N // (max(s, sq) * d), 2)
+            q = torch.randn(b, 1, sq, d, generator=g).requires_grad_(True)
+            k, v = (torch.randn(b, 1, s, d, generator=g).requires_grad_(True) for _ in range(2))
             torch.manual_seed(derive_seed(case.get("seed", 0), "C04drop") % (2**31))
             y = U.scaled_dot_product_attention(q, k, v, dropout_p=case["dropout_p"], is_causal=case["causal"], mult=case["mult"])
             (gv,) = torch.autograd.grad(y, v, torch.randn(y.shape, generator=g))
             check("output_rms", rms(y), 0.7, 1.3)
-            check("grad_value_rms", rms(gv), 0.7, 1.3)
+            if sq == s:
+                check("grad_value_rms", rms(gv), 0.7, 1.3)
         elif op == "cross_entropy":
             V = case["V"]
             n = max(N // V, 32)
@@ -155,7 +170,11 @@ def run_case(case: Dict[str, Any]) -> Dict[str, Any]:
                 check("grad_rms", rms(gx), 0.95, 1.45)
         else:
             wd = case["width"]
-            ns = (wd,) if case["nd"] == 1 else (2, wd // 2) if wd % 2 == 0 else (1, wd)
+            nd_ = case["nd"]
+            if nd_ in (1, 2):
+                ns = (wd,) if nd_ == 1 else (2, wd // 2) if wd % 2 == 0 else (1, wd)
+            else:
+                ns = {"x4": (wd // 4, 4), "x2": (wd // 2, 2), "2x2x": (2, 2, wd // 4), "x1": (wd, 1)}[nd_]
             rows = max(N // wd, 64)
             x = torch.randn((rows,) + ns, generator=g).requires_grad_(True)
             if op == "layer_norm":
